@@ -3,6 +3,7 @@
  *  {"t":"string","s":[bytes]} {"t":"array","e":[..]} {"t":"object","m":[{"k":[bytes],"v":..}]}  {"t":"none"} */
 #include "vhrt.h"
 #include "vh_dump.h"
+#include "json_object_private.h"
 #include <stdlib.h>
 #include <string.h>
 #include <inttypes.h>
@@ -72,6 +73,9 @@ void dump_value(const char *key, json_object *o)
 			int fl = snprintf(fb, sizeof fb, "%.17g", json_object_get_double(o));
 			ev_bytes("fmt", fb, (size_t)fl);
 			const char *ud = (const char *)json_object_get_userdata(o);
+			/* (a node printed by json_object_double_to_json_string keeps a FORMAT there, not a retained text) */
+			if (o->_to_json_string == json_object_double_to_json_string)
+				ud = NULL;
 			ev_bytes("ret", ud ? ud : "", ud ? strlen(ud) : 0);
 			/* the retained text (if any) still denotes the node's value: strtod of it gives the same bit pattern
 			 * (sign of zero included); NaN / infinities compare by class */
